@@ -427,6 +427,44 @@ fn run_case(case: &Value, args: &Args, rng: &mut Rng) -> Result<(Value, u64), Fa
             Err(p) => return Err(fail("C11:panic", format!("lookup/ancestry query panicked: {p}"))),
         }
     }
+    // ---- fault dimension: a read fault at the k-th storage fetch of the commit.  The spec's
+    // Commit is atomic: the call either fails and leaves the committed state as it was, or
+    // succeeds with exactly the state of the fault-free run (C08: history only grows).
+    if args.opt_bool("faults") && exp_heads.len() >= 2 && rng.below(args.opt_u64("faults_every", 1)) == 0 {
+        let build = |sink: &mut ASink| -> Result<(Replica, crate::replica::Txn), Fail> {
+            let mut r = Replica::new(ids::init_id());
+            let t = deliver_all(&mut r, &order, None, sink, false).map_err(|e| fail("tool:fault-build", err_class(&e)))?;
+            Ok((r, t))
+        };
+        let mut s0 = ASink::new();
+        let (mut r0, t0) = build(&mut s0)?;
+        crate::faulty::reset_fetch_count();
+        r0.commit(t0, &mut s0).map_err(|e| fail("tool:fault-dry-run", err_class(&e)))?;
+        let n = crate::faulty::fetch_count();
+        let ks: Vec<i64> = if n <= 16 { (0..n).collect() } else { (0..16).map(|_| rng.below(n as u64) as i64).collect() };
+        for k in ks {
+            let mut sk = ASink::new();
+            let (mut r, t) = build(&mut sk)?;
+            let before_f = r.view().map_err(|e| fail("tool:view", e))?;
+            crate::faulty::fail_nth_fetch(Some(k));
+            let res = vrt::catch_any(|| r.commit(t, &mut sk));
+            crate::faulty::fail_nth_fetch(None);
+            let after_f = r.view().map_err(|e| fail("C08:unreadable-after-fault", format!("state unreadable after a read fault at fetch {k} of commit: {e}")))?;
+            match res {
+                Err(p) => return Err(fail("C08:panic-on-read-fault", format!("commit panicked on a read fault at fetch {k}: {p}"))),
+                Ok(Ok(_)) => {
+                    if after_f != after {
+                        return Err(fail("C08:wrong-state-after-absorbed-fault", format!("commit returned Ok despite a read fault at fetch {k} but the committed state differs from the fault-free run")));
+                    }
+                }
+                Ok(Err(_)) => {
+                    if after_f != before_f {
+                        return Err(fail("C08:partial-commit-on-read-fault", format!("commit failed on a read fault at fetch {k} but the committed state changed: before {} after {}", view_json(&u, &before_f), view_json(&u, &after_f))));
+                    }
+                }
+            }
+        }
+    }
     Ok((obs, drift))
 }
 
@@ -559,6 +597,24 @@ fn run_star(case: &Value, args: &Args, rng: &mut Rng) -> Result<(Value, u64), Fa
                 return Err(fail("C19:suppressed", format!("replica lacking sibling k{k} of a {w}-wide star decided not to sync on the full replica's hello")))
             }
             Err(e) => return Err(fail("C19:error", format!("should_sync_on_hello failed: {}", err_class(&e)))),
+        }
+        // fault dimension: a read fault during the lookup must never become "no sync needed"
+        if args.opt_bool("faults") {
+            crate::faulty::reset_fetch_count();
+            let _ = s.should_sync(hp);
+            let m = crate::faulty::fetch_count();
+            for j in 0..m.min(24) {
+                crate::faulty::fail_nth_fetch(Some(j));
+                let r = vrt::catch_any(|| s.should_sync(hp));
+                crate::faulty::fail_nth_fetch(None);
+                match r {
+                    Ok(Ok(false)) => {
+                        return Err(fail("C19:suppressed-on-read-fault", format!("a read fault at fetch {j} of the hello lookup made a replica lacking sibling k{k} decide not to sync")))
+                    }
+                    Err(p) => return Err(fail("C19:panic-on-read-fault", format!("should_sync_on_hello panicked on a read fault: {p}"))),
+                    _ => {}
+                }
+            }
         }
         // same head set => same hello (C19 second clause)
         let mut s2 = build(Some(k), rng, true)?;
